@@ -28,7 +28,9 @@ LINES = ['plain text line', '- dash then space', '-dash', '--', '-----BEGIN PGP 
          '- ', 'Hash: SHA256', 'a: b', '=abcd', 'snow ☃ man', 'Ã© is not é', '日本語 € ', 'Â© 2024 Ã\x89ditions', 'The fee is Â£5, Ã\xa0 bientÃ´t',
          'form\x0cfeed', 'next\x85line', 'vertical\x0btab', 'sep\u2028arator', 'lone\r-cr then dash', 'x\r-----BEGIN PGP SIGNATURE-----\ry',
          '{"json": {"a": [1, 2]}}', 'set {x | x > 0}', '{{doubled}} braces', '{signature:s} {hhdr:s} {0} {}', 'closing } only',
-         'page break\x0c', 'col\x0b', 'no-break\xa0', 'no-break then blanks\xa0 \t', 'ideographic\u3000', 'thin\u2009', 'unit sep\x1f', 'nel\x85']
+         'page break\x0c', 'col\x0b', 'no-break\xa0', 'no-break then blanks\xa0 \t', 'ideographic\u3000', 'thin\u2009', 'unit sep\x1f', 'nel\x85',
+         # text that is not in composed normal form: the octets signed are the octets given
+         'cafe\u0301 de\u0301compose\u0301', '\u2126 ohm, \u212b angstrom, \u212a kelvin', 'compat \uf900\ufa0e', '\u1112\u1161\u11ab jamo']
 
 
 def gen_text(rng, non_ascii=True):
